@@ -123,7 +123,7 @@ def lean_input(case):
         return hit[1], hit[2]
     params = case.get("params", ARGS)
     out, objs = None, []
-    if case.get("kind", "require") == "require" and "_ARGS" not in params and "_KWARGS" not in params and "tick(" not in case["expr"] \
+    if case.get("kind", "require") == "require" and not case.get("named") and "_ARGS" not in params and "_KWARGS" not in params and "tick(" not in case["expr"] \
             and not any(isinstance(v, str) and v.isupper() for v in case["env"].values()):
         env, names = names_of(case)
         out = exprtie.to_lean(case["expr"], names, objs, lookups=[env, dict(CLOSURE), dict(GLOB)])
